@@ -223,7 +223,13 @@ def run_lookup(api, subset, rot, probes, acc):
     try:
         attached = {}
         for k, p in enumerate(subset):
-            tb.attach(p, rot + k, 'h' + '/'.join(p))
+            try:
+                tb.attach(p, rot + k, 'h' + '/'.join(p))
+            except Exception as e:  # noqa
+                viol.append((f'C04|{api}|lookup|attach-refused|{type(e).__name__}',
+                             f'attaching a handler to the free prefix /{"/".join(p)} (already attached: '
+                             f'{sorted("/" + "/".join(q) for q in attached)}) raised {e!r}'))
+                return viol
             attached[p] = 'h' + '/'.join(p)
         check_table(tb, attached, probes, 'lookup', viol, acc)
     finally:
